@@ -1,132 +1,4 @@
-// C02 correspondence driver: the real RBAC decision, called exactly as the agent does.
-//
-// stdin: one JSON object per line
-//   {"doc": "<JSON text of an AuthorizationItem>", "reps": n,
-//    "reqs": [{"u": userName, "g": [groups], "p": hex(processName), "e": hex(processFullPath),
-//              "el": runAsElevated, "url": "<request URI text>"}, ...]}
-// stdout: one line per input line, prefixed "@@ ":
-//   {"sum": {default, mode, privs, ids, assign}, "res": [{"d": [bool; reps], "path", "query"} | {"err": ..}]}
-//   or {"err": "..."} when the document does not deserialize.
-//
-// The document goes through serde_json::from_str::<AuthorizationItem> (the parsing glue the agent
-// uses for the host's answer), then ComputedAuthorizationItem::from_authorization_item, then
-// is_allowed(logger, uri, claims).  Every request is decided on `reps` independently built
-// computed items (each HashMap/HashSet gets a fresh RandomState, hence a different iteration
-// order); all decisions are reported.
-use gpa::key_keeper::key::AuthorizationItem;
-use gpa::proxy::authorization_rules::ComputedAuthorizationItem;
-use gpa::proxy::proxy_connection::ConnectionLogger;
-use gpa::proxy::Claims;
-use serde_json::{json, Value};
-use std::ffi::OsString;
-use std::io::{self, BufRead, Write};
-use std::os::unix::ffi::OsStringExt;
-use std::path::PathBuf;
-
-fn unhex(s: &str) -> Vec<u8> {
-    (0..s.len() / 2)
-        .map(|i| u8::from_str_radix(&s[2 * i..2 * i + 2], 16).unwrap())
-        .collect()
-}
-
-pub fn claims_of(r: &Value) -> Claims {
-    Claims {
-        userId: 0,
-        userName: r["u"].as_str().unwrap_or("").to_string(),
-        userGroups: r["g"]
-            .as_array()
-            .map(|a| a.iter().map(|x| x.as_str().unwrap_or("").to_string()).collect())
-            .unwrap_or_default(),
-        processId: 0,
-        processName: OsString::from_vec(unhex(r["p"].as_str().unwrap_or(""))),
-        processFullPath: PathBuf::from(OsString::from_vec(unhex(r["e"].as_str().unwrap_or("")))),
-        processCmdLine: String::new(),
-        runAsElevated: r["el"].as_bool().unwrap_or(false),
-        clientIp: "127.0.0.1".to_string(),
-        clientPort: 0,
-    }
-}
-
-pub fn summary(c: &ComputedAuthorizationItem) -> Value {
-    let mut privs: Vec<&String> = c.privileges.keys().collect();
-    privs.sort();
-    // key and the stored privilege's own name (is_allowed looks assignments up by the latter)
-    let mut pnames: Vec<(String, String)> = c
-        .privileges
-        .iter()
-        .map(|(k, v)| (k.clone(), v.name.clone()))
-        .collect();
-    pnames.sort();
-    let mut ids: Vec<&String> = c.identities.keys().collect();
-    ids.sort();
-    let mut assign: Vec<(String, Vec<String>)> = c
-        .privilegeAssignments
-        .iter()
-        .map(|(k, v)| {
-            let mut s: Vec<String> = v.iter().cloned().collect();
-            s.sort();
-            (k.clone(), s)
-        })
-        .collect();
-    assign.sort();
-    json!({"default": c.defaultAllowed, "mode": c.mode.to_string(), "privs": privs,
-           "pnames": pnames, "ids": ids, "assign": assign})
-}
-
-fn handle(line: &str) -> Value {
-    let v: Value = match serde_json::from_str(line) {
-        Ok(v) => v,
-        Err(e) => return json!({"err": format!("line: {}", e)}),
-    };
-    let doc = v["doc"].as_str().unwrap_or("");
-    let reps = v["reps"].as_u64().unwrap_or(1).max(1) as usize;
-    let mut computed = Vec::new();
-    for _ in 0..reps {
-        let item: AuthorizationItem = match serde_json::from_str(doc) {
-            Ok(i) => i,
-            Err(e) => return json!({"err": format!("doc: {}", e)}),
-        };
-        computed.push(ComputedAuthorizationItem::from_authorization_item(item));
-    }
-    let mut res = Vec::new();
-    if let Some(reqs) = v["reqs"].as_array() {
-        for r in reqs {
-            let uri: hyper::Uri = match r["url"].as_str().unwrap_or("").parse() {
-                Ok(u) => u,
-                Err(e) => {
-                    res.push(json!({"err": format!("uri: {}", e)}));
-                    continue;
-                }
-            };
-            let claims = claims_of(r);
-            let mut d = Vec::new();
-            for c in &computed {
-                let mut logger = ConnectionLogger::new(0, 0);
-                let out = std::panic::catch_unwind(std::panic::AssertUnwindSafe(|| {
-                    c.is_allowed(&mut logger, uri.clone(), claims.clone())
-                }));
-                match out {
-                    Ok(b) => d.push(json!(b)),
-                    Err(_) => d.push(json!("panic")),
-                }
-            }
-            res.push(json!({"d": d, "path": uri.path(), "query": uri.query()}));
-        }
-    }
-    json!({"sum": summary(&computed[0]), "res": res})
-}
-
+// thin entry point: the driver is compiled inside the crate (hook H6, src/drivers/c02.rs)
 fn main() {
-    std::panic::set_hook(Box::new(|_| {}));
-    let stdin = io::stdin();
-    // The library prints some log lines with println!; results go through the same line-buffered
-    // stdout handle, one write per line, so the two cannot interleave inside a line.
-    for line in stdin.lock().lines() {
-        let line = line.unwrap();
-        if line.trim().is_empty() {
-            continue;
-        }
-        let text = format!("@@ {}\n", handle(&line));
-        io::stdout().write_all(text.as_bytes()).unwrap();
-    }
+    gpa::verif_drivers::c02::main()
 }
